@@ -98,6 +98,10 @@ inline void run_tunnel(Tape &t, Mode mode, Run &R)
 	bool busy_draw = false; uint32_t busy_period_ms = 200;
 	int busy_side = 0;   // 0 client's tun, 1 server's tun, 2 both
 	if (mode == RECOVER) { busy_draw = t.chance(1, 3); busy_period_ms = (uint32_t)t.range(120, 500); busy_side = (int)t.pick({3, 1, 1}); }
+	// CLEAN, one case in four: traffic in ONE direction only, a packet every 2..15 s for up to several minutes (a one-way stream:
+	// telemetry, syslog, a media stream without feedback); keep-alives must not depend on the other direction being busy or idle
+	int oneway = 0;
+	if (mode == CLEAN && t.chance(1, 4)) oneway = 1 + (int)t.below(2);
 	if (mode == REDELIVER) { c.raw_mode = false; c.client_v6 = false; }
 	bool use_relay = !c.raw_mode && !c.client_v6 && (mode == REDELIVER || t.chance(1, mode == FAULTY ? 3 : 6));
 	if (use_relay) c.nameserver = sim::Addr::v4(192, 0, 2, 53, 53);
@@ -193,18 +197,21 @@ inline void run_tunnel(Tape &t, Mode mode, Run &R)
 	int noffers = mode == RECOVER ? t.range(0, 25) : t.range(1, mode == CLEAN || mode == REDELIVER ? 40 : 30);
 	uint64_t at = t0;
 	uint16_t ident = 1;
+	if (oneway) { noffers = std::max(noffers, 8); R.classes.push_back(oneway == 1 ? "one-way-upstream-stream" : "one-way-downstream-stream"); }
 	uint64_t fault_len = mode == FAULTY ? (uint64_t)t.range(1, 40) * 1000000 : (mode == RECOVER ? (uint64_t)t.range(1, 40) * 1000000 : 0);
 	for (int i = 0; i < noffers; i++) {
 		Offer o;
 		uint64_t gap;
 		switch (t.pick({5, 3, 2, 1})) { case 0: gap = t.below(20000); break; case 1: gap = t.below(600000); break; case 2: gap = 1000000 + t.below(4000000); break; default: gap = 5000000 + t.below(25000000); break; }
+		if (oneway) gap = 2000000 + t.below(13000000);
 		if (mode != CLEAN && mode != REDELIVER && at + gap > t0 + fault_len) gap = t.below(50000);
 		if (gap > 4500000) R.idle_gap = true;
 		at += gap;
 		o.at = at;
 		int side = (int)t.below(1 + c.nclients) - 1;
+		if (oneway) side = oneway == 1 ? 0 : -1;
 		o.side = side;
-		if (side < 0) o.dst = (int)t.pick({8, 1, 1}) == 0 ? (int)t.below(c.nclients) : (t.chance(1, 2) ? 9 : -1);
+		if (side < 0) o.dst = (oneway || (int)t.pick({8, 1, 1}) == 0) ? (int)t.below(c.nclients) : (t.chance(1, 2) ? 9 : -1);
 		else { o.dst = -1; if (c.nclients > 1 && t.chance(1, 3)) { o.dst = (int)t.below(c.nclients); if (o.dst == side) o.dst = -1; } }
 		Bytes dst = o.dst < 0 ? sip : (o.dst == 9 ? Bytes{sip[0], sip[1], sip[2], (uint8_t)(sip[3] ^ 0x80)} : cip[o.dst]);
 		Bytes src = side < 0 ? sip : cip[side];
